@@ -336,6 +336,8 @@ def r4(ctx):
         f = ctx.fn(q)
         data = [p for p in f.params if p != "self"][0]
         feed, pos, filters, loop, call = ingestion_feed(ctx, f)
+        if any(k.arg is None for k in call.keywords) or any(isinstance(a, ast.Starred) for a in call.args):
+            raise AnalysisError(f"{f.site()}: the sampler is fed through `{U(call)[:70]}`: star-arguments that cannot be expanded statically")
         problems = []
         want = {"y": ("observations", None), "cl": ("sample_ids", None), "dd1": ("treatment_ids", 0), "dd2": ("treatment_ids", 1)}
         sels = set()
